@@ -36,6 +36,8 @@ def seeded_table():
         first = "caught (%s)" % next((t for t, v in ch.items() if v.get("exit") == 1 and v.get("n_violation_lines")), "?") if c.get("caught") else "MISSED (quick+thorough)"
         if c.get("caught") and any(v.get("no_failing_input_found_only") for v in ch.values()):
             first += ", no-failing-input-found"
+        if c.get("first_run_invalid"):
+            first += " †"
         after = c.get("caught_after_strengthening")
         cross = []
         for r in c.get("rechecks", []):
@@ -49,6 +51,23 @@ def seeded_table():
         rows.append("| %s | %s | %s | %s | %s | %s |" % (name, summ.replace("|", "/"), conf, first,
                     {True: "caught", False: "still missed", None: "-"}[after], ", ".join(sorted(set(cross))) or "-"))
     hdr = "| seeded change | what it does | confirmed (tests pass, demo fails/passes) | first run of the property's check | after strengthening | also caught by |\n|---|---|---|---|---|---|\n"
+    return hdr + "\n".join(rows)
+
+def benign_table():
+    rows = []
+    for f in sorted(glob.glob(os.path.join(ROOT, "benign", "*", "meta.json"))):
+        name = f.split("/")[-2]
+        m = json.load(open(f))
+        first, last = {}, {}
+        for r in m.get("runs", []):
+            for c, v in r.get("checks", {}).items():
+                first.setdefault(c, v["outcome"]); last[c] = v["outcome"]
+        summ = re.sub(r"\s+", " ", str(m.get("summary") or ""))[:170].replace("|", "/")
+        def fmt(d):
+            bad = ["%s: %s" % (c, o) for c, o in d.items() if o != "quiet"]
+            return ("all quiet (%s)" % ", ".join(d)) if not bad else "; ".join(bad) + " (quiet: %s)" % (", ".join(c for c, o in d.items() if o == "quiet") or "-")
+        rows.append("| %s | %s | %s | %s | %s |" % (name, m.get("kind", "-"), summ, fmt(first), fmt(last) if last != first else "same"))
+    hdr = "| behaviour-preserving change | kind | what it does | first run (checks run against it) | latest run |\n|---|---|---|---|---|\n"
     return hdr + "\n".join(rows)
 
 def findings_table():
@@ -77,7 +96,7 @@ def asbuilt():
 
 def main():
     p = os.path.join(ROOT, "DESIGN.md"); s = open(p).read()
-    for tag, fn in (("PROPS", props_table), ("ASBUILT", asbuilt), ("SEEDED", seeded_table), ("FINDINGS", findings_table)):
+    for tag, fn in (("PROPS", props_table), ("ASBUILT", asbuilt), ("SEEDED", seeded_table), ("BENIGN", benign_table), ("FINDINGS", findings_table)):
         b, e = "<!-- BEGIN GENERATED %s -->" % tag, "<!-- END GENERATED %s -->" % tag
         if b in s and e in s:
             s = s[:s.index(b) + len(b)] + "\n" + fn() + "\n" + s[s.index(e):]
